@@ -101,7 +101,7 @@ def run(stride, offset, files):
                 else:
                     rec["result"] = "survived-checks"
                     rec["checks"] = {}
-                    for p in CHECKS[f]:
+                    for p in CHECKS[f][:3]:
                         rc, out = sh(f"./check {p} quick 2>&1 | grep -E '^(VIOLATION|RESULT|BUILD-FAILED|INCONCLUSIVE)' | head -4", cwd=VERIF, timeout=1500)
                         rec["checks"][p] = out.strip()[:400]
                         if "VIOLATION" in out:
